@@ -5,9 +5,11 @@
 //! A script (EVAL / EVALSHA) and a transaction (EXEC) are ONE step: while one runs the clock is frozen
 //! at its start (`freeze()`), so every command inside sees the same liveness of every key, deadlines
 //! set inside are "start + ttl", TTL / PTTL inside are measured from the start, and the sweeper and the
-//! snapshot thread - which read the same clock - cannot expire a key in the middle of it. There is one
-//! command thread, so one process-wide value is enough. The guard is re-entrant: only the outermost
-//! `freeze()` sets the instant and only its drop releases it (EVAL inside EXEC).
+//! snapshot thread - which follow the command thread's clock (`follow()`) - cannot expire a key in the
+//! middle of it. The frozen instant belongs to the thread that froze it: a thread that neither froze the
+//! clock nor follows it (another engine's user in the same process, e.g. the unit tests, which run in
+//! parallel threads) always reads the real clock. The guard is re-entrant: only the outermost `freeze()`
+//! of a thread sets its instant and only its drop releases it (EVAL inside EXEC).
 //!
 //! Anything that must measure real elapsed time (the script time limit, latency, `created_at`) keeps
 //! using `Instant::now()`.
@@ -20,17 +22,34 @@ lazy_static::lazy_static! {
     static ref BASE: Instant = Instant::now();
 }
 
+/// number of threads that hold the clock frozen, and the instant of the first of them (what followers see)
 static DEPTH: AtomicUsize = AtomicUsize::new(0);
 static FROZEN_NANOS: AtomicU64 = AtomicU64::new(0);
 
+thread_local! {
+    /// this thread's own freeze: nesting depth and instant
+    static LOCAL_DEPTH: std::cell::Cell<usize> = std::cell::Cell::new(0);
+    static LOCAL_NANOS: std::cell::Cell<u64> = std::cell::Cell::new(0);
+    /// a background thread of the storage layer (sweeper, snapshot writer): sees the command thread's frozen clock
+    static FOLLOWER: std::cell::Cell<bool> = std::cell::Cell::new(false);
+}
+
 /// The current time as the storage layer sees it: the frozen instant while a script or a
-/// transaction runs, the real clock otherwise.
+/// transaction runs on this thread (or, for a follower, on the command thread), the real clock otherwise.
 pub fn now() -> Instant {
-    if DEPTH.load(Ordering::Acquire) == 0 {
-        Instant::now()
-    } else {
+    if LOCAL_DEPTH.with(|d| d.get()) > 0 {
+        *BASE + Duration::from_nanos(LOCAL_NANOS.with(|n| n.get()))
+    } else if FOLLOWER.with(|f| f.get()) && DEPTH.load(Ordering::Acquire) > 0 {
         *BASE + Duration::from_nanos(FROZEN_NANOS.load(Ordering::Acquire))
+    } else {
+        Instant::now()
     }
+}
+
+/// Called once by a background thread of the storage layer (the sweeper, a snapshot writer): from then on
+/// it reads the frozen clock while a script or a transaction runs.
+pub fn follow() {
+    FOLLOWER.with(|f| f.set(true));
 }
 
 /// Keeps the storage clock frozen while it lives.
@@ -39,17 +58,23 @@ pub struct Freeze(());
 /// Freeze the storage clock at the present instant until the returned guard is dropped. Nested
 /// calls keep the instant of the outermost one.
 pub fn freeze() -> Freeze {
-    if DEPTH.load(Ordering::Acquire) == 0 {
-        let base = *BASE;
-        let nanos = Instant::now().saturating_duration_since(base).as_nanos() as u64;
-        FROZEN_NANOS.store(nanos, Ordering::Release);
+    if LOCAL_DEPTH.with(|d| d.get()) == 0 {
+        let nanos = Instant::now().saturating_duration_since(*BASE).as_nanos() as u64;
+        LOCAL_NANOS.with(|n| n.set(nanos));
+        if DEPTH.load(Ordering::Acquire) == 0 {
+            FROZEN_NANOS.store(nanos, Ordering::Release);
+        }
+        DEPTH.fetch_add(1, Ordering::AcqRel);
     }
-    DEPTH.fetch_add(1, Ordering::AcqRel);
+    LOCAL_DEPTH.with(|d| d.set(d.get() + 1));
     Freeze(())
 }
 
 impl Drop for Freeze {
     fn drop(&mut self) {
-        DEPTH.fetch_sub(1, Ordering::AcqRel);
+        let left = LOCAL_DEPTH.with(|d| { d.set(d.get() - 1); d.get() });
+        if left == 0 {
+            DEPTH.fetch_sub(1, Ordering::AcqRel);
+        }
     }
 }
